@@ -362,3 +362,101 @@ fn c11_streaminfo_reported_size() {
     assert!(si.total_size().map(|b| b.get()) == Some(38));
 }
 
+
+// ---------------------------------------------------------------------------
+// more block bodies through the FIFO
+// ---------------------------------------------------------------------------
+
+fn any_seekpoint() -> SeekPoint {
+    if kani::any() {
+        SeekPoint::Placeholder
+    } else {
+        let s: u64 = kani::any();
+        // u64::MAX is the placeholder marker and cannot be a defined point's offset
+        kani::assume(s != u64::MAX);
+        SeekPoint::Defined {
+            sample_offset: s,
+            byte_offset: kani::any(),
+            frame_samples: kani::any(),
+        }
+    }
+}
+
+// @harness prop=C11 tier=quick expect=pass timeout=900
+// @units metadata::SeekPoint::to_writer metadata::SeekPoint::from_reader metadata::SeekPoint::is_next
+// @bound one seek point: a placeholder, or a defined point with arbitrary 64-bit sample offset (except the placeholder marker 2^64-1), byte offset and 16-bit length
+// @oracle 18 bytes written; reads back equal; a placeholder is written with the all-ones sample offset
+// (whole SEEKTABLE blocks go through Contiguous + Vec + collect: a 2-point table did not finish in 900 s)
+#[kani::proof]
+#[kani::unwind(20)]
+fn c11_seekpoint_roundtrip() {
+    let p = any_seekpoint();
+    let mut q = TokFifo::<20>::new();
+    let w = q.build(&p);
+    assert!(w.is_ok() && !q.failed);
+    std::mem::forget(w);
+    assert!(q.wpos == 18 * 8);
+    if matches!(p, SeekPoint::Placeholder) {
+        let mut i = 0;
+        while i < 8 {
+            assert!(q.vals[i] == 0xFF);
+            i += 1;
+        }
+    }
+    let back: Result<SeekPoint, std::io::Error> = q.parse();
+    assert!(back.is_ok());
+    let back = back.unwrap();
+    assert!(q.drained());
+    match (&back, &p) {
+        (SeekPoint::Placeholder, SeekPoint::Placeholder) => {}
+        (
+            SeekPoint::Defined { sample_offset: a, byte_offset: b, frame_samples: c },
+            SeekPoint::Defined { sample_offset: x, byte_offset: y, frame_samples: z },
+        ) => assert!(a == x && b == y && c == z),
+        _ => assert!(false),
+    }
+}
+
+// @harness prop=C11 tier=quick expect=pass timeout=600
+// @units metadata::Application::to_writer metadata::Application::from_reader
+// @bound APPLICATION block with any 32-bit id and a payload of 0, 1 or 3 arbitrary bytes
+// @oracle reads back equal given the self-reported size; a declared size below 4 is Err(InsufficientApplicationBlock)
+#[kani::proof]
+#[kani::unwind(10)]
+fn c11_application_block_roundtrip() {
+    const LENS: [usize; 3] = [0, 1, 3];
+    let mut k = 0;
+    while k < LENS.len() {
+        let id: u32 = kani::any();
+        let bytes: [u8; 3] = kani::any();
+        let a = Application { id, data: bytes[..LENS[k]].to_vec() };
+        let mut q = TokFifo::<10>::new();
+        let w = q.build(&a);
+        assert!(w.is_ok() && !q.failed);
+        std::mem::forget(w);
+        let size = a.bytes().unwrap();
+        assert!(size.get() as usize == 4 + LENS[k] && q.wpos == 8 * (4 + LENS[k] as u64));
+        let back: Result<Application, Error> = q.parse_using(size);
+        assert!(back.is_ok());
+        let back = back.unwrap();
+        assert!(q.drained() && back.id == id && back.data.len() == LENS[k]);
+        let mut i = 0;
+        while i < LENS[k] {
+            assert!(back.data[i] == bytes[i]);
+            i += 1;
+        }
+        std::mem::forget(back);
+        std::mem::forget(a);
+        k += 1;
+    }
+    let short: u32 = kani::any();
+    kani::assume(short < 4);
+    let mut q = TokFifo::<10>::new();
+    q.push(0, 8, 1);
+    q.push(0, 8, 2);
+    q.push(0, 8, 3);
+    q.push(0, 8, 4);
+    let r: Result<Application, Error> = q.parse_using(BlockSize::try_from(short).unwrap());
+    assert!(matches!(r, Err(Error::InsufficientApplicationBlock)));
+    std::mem::forget(r);
+}
